@@ -211,7 +211,9 @@ func (e *symbolsEngine) build(d *symDef) error {
 	}
 	// compile from source so that the result carries an AST (the *result path)
 	self := fmt.Sprintf("f%d.proto", d.id)
-	c := protocompile.Compiler{Resolver: protocompile.ResolverFunc(func(path string) (protocompile.SearchResult, error) {
+	// RetainASTs: without it the compiler drops the AST after linking and Symbols.Import treats the
+	// result like a plain descriptor (importFile instead of importResult)
+	c := protocompile.Compiler{RetainASTs: true, Resolver: protocompile.ResolverFunc(func(path string) (protocompile.SearchResult, error) {
 		if path == self {
 			return protocompile.SearchResult{Source: strings.NewReader(d.text)}, nil
 		}
